@@ -12,6 +12,8 @@
 //!   cip <budget> <file> <src> <dst> <n> -> ok moved=N len=N fp=H [data=HEX] | err moved=N len=N fp=H [data=HEX]
 //!   mv <budget> <srcfile> <so> <dstfile> <do> <n> -> ok moved=N len=N fp=H [data=HEX] | err … (dest file)
 //!   plan <thr-f64-bits-hex> <segsize> <segs>  -> <moves> total=N srcs=.. tgts=..
+//!   exec <budget> <thr-f64-bits-hex> <segsize> <segs> -> ok moves=N moved=N <len:fp,...> | err
+//!                                        (the plan's moves performed in plan order with move_data)
 //!   arch <presize> <w1,w2,..>           -> compacted=N reclaimed=N len=N
 //! <spans> = `-` | off:len,off:len,…     <segs> = `-` | F:used,T:used,…
 //! <file>  = hex:<hex or -> | gen:<len>:<seed>   (byte i = (i + seed + (i/256)*37 + (i/65536)*101) mod 256)
@@ -136,12 +138,20 @@ fn expected_concat(orig: &[u8], spans: &[DataSpan]) -> Vec<u8> {
 fn oracle_spans(s: &mut Session, req: &str, orig: Option<&[u8]>, input: &[DataSpan], ok: bool, after: Option<&[u8]>, saved: u64) {
     let ov = any_overlap(input);
     let zero = input.iter().any(|x| x.length == 0);
-    if ov {
+    // a span whose end leaves u64 lies in no file: it must be refused like an overlap, with the
+    // file untouched (sigs carry `-u64-wrap` so that this shape stays apart from plain overlaps)
+    let wraps = input.iter().any(|x| x.offset.checked_add(x.length).is_none());
+    if wraps {
+        s.tally("spans-with-u64-overflow");
+    }
+    if ov || wraps {
         if ok {
-            s.oracle_fail("overlap-accepted", &format!("overlapping span set accepted: {}", fmt_spans(input)), &[req.to_string()]);
+            let sig = if wraps { if ov { "overlap-accepted-u64-wrap" } else { "overflow-accepted-u64-wrap" } } else { "overlap-accepted" };
+            s.oracle_fail(sig, &format!("overlapping / overflowing span set accepted: {}", fmt_spans(input)), &[req.to_string()]);
         } else if let (Some(o), Some(a)) = (orig, after) {
             if o != a {
-                s.oracle_fail("refuse-modified-file", "overlapping span set refused but the file changed", &[req.to_string()]);
+                let sig = if wraps { "refuse-modified-file-u64-wrap" } else { "refuse-modified-file" };
+                s.oracle_fail(sig, "overlapping / overflowing span set refused but the file changed", &[req.to_string()]);
             }
         }
         return;
@@ -162,9 +172,11 @@ fn oracle_spans(s: &mut Session, req: &str, orig: Option<&[u8]>, input: &[DataSp
         return;
     }
     if input.is_empty() {
+        // (sig renamed after fix 79c672c: the old `empty-span-set-noop` is a listed finding and
+        // must not absorb a regression)
         if !a.is_empty() || saved != o.len() as u64 {
             s.oracle_fail(
-                "empty-span-set-noop",
+                "empty-span-set-kept",
                 &format!("empty live set: file keeps {} of {} bytes, reports saved={}", a.len(), o.len(), saved),
                 &[req.to_string()],
             );
@@ -443,6 +455,86 @@ fn run_line(s: &mut Session, req: &str, toks: &[&str]) -> Option<String> {
                 }
             }
         }
+        ["exec", b, thr, size, sg] => {
+            // plan_archive_merge, then the moves performed IN PLAN ORDER with the real move_data on
+            // real segment files (segment i = used_i generated bytes, seed 17 i + 3). The crate has
+            // no executor; this loop is the one Model.execPlan describes. O: theorem
+            // plan_execution_in_order_safe restated on the files.
+            let budget: usize = b.parse().ok()?;
+            let bits = u64::from_str_radix(thr, 16).ok()?;
+            let thr = f64::from_bits(bits);
+            let size: u64 = size.parse().ok()?;
+            let segs = parse_segs(sg)?;
+            if budget > (1 << 28) || segs.len() > 64 || segs.iter().any(|x| x.1 > (1 << 20)) {
+                return None;
+            }
+            let infos: Vec<SegmentInfo> = segs
+                .iter()
+                .enumerate()
+                .map(|(i, &(fz, used))| {
+                    let mut si = SegmentInfo::new(i as u16, SegmentHeader::zeroed());
+                    si.state = if fz { SegmentState::Frozen } else { SegmentState::Thawed };
+                    si.write_position = used;
+                    si
+                })
+                .collect();
+            let Ok(plan) = catch(AssertUnwindSafe(|| plan_archive_merge(&infos, thr, size))) else {
+                s.oracle_fail("plan-panic", "plan_archive_merge panicked", &[req.to_string()]);
+                return Some("panic".into());
+            };
+            let dir = tempfile::tempdir().expect("tempdir");
+            let path = |i: usize| dir.path().join(format!("seg.{i}"));
+            let orig: Vec<Vec<u8>> = segs.iter().enumerate().map(|(i, x)| (0..x.1).map(|j| gen_byte(j, i as u64 * 17 + 3)).collect()).collect();
+            for (i, o) in orig.iter().enumerate() {
+                std::fs::write(path(i), o).expect("write segment");
+            }
+            let mut mover = CompactionFileMover::new(budget);
+            let mut failed = false;
+            for m in &plan.moves {
+                let (si, di) = (m.source_segment as usize, m.dest_segment as usize);
+                if si >= segs.len() || di >= segs.len() {
+                    failed = true;
+                    break;
+                }
+                let mut sf = std::fs::File::open(path(si)).expect("open src");
+                let mut df = OpenOptions::new().write(true).open(path(di)).expect("open dst");
+                let r = catch(AssertUnwindSafe(|| mover.move_data(&mut sf, m.source_offset, &mut df, m.dest_offset, m.length).is_ok()));
+                if !matches!(r, Ok(true)) {
+                    failed = true;
+                    break;
+                }
+            }
+            let after: Vec<Vec<u8>> = (0..segs.len()).map(|i| std::fs::read(path(i)).expect("read segment")).collect();
+            let r = [req.to_string()];
+            if failed {
+                s.oracle_fail("exec-failed", "a move of the plan could not be performed (unknown segment or I/O error)", &r);
+                s.case(Some(req));
+                return Some("err".into());
+            }
+            for (i, o) in orig.iter().enumerate() {
+                if after[i].len() < o.len() || after[i][..o.len()] != o[..] {
+                    s.oracle_fail("exec-live-overwritten", &format!("segment {i}: bytes below its write position {} changed during the run", o.len()), &r);
+                }
+            }
+            for (k, m) in plan.moves.iter().enumerate() {
+                let (si, di) = (m.source_segment as usize, m.dest_segment as usize);
+                let (a, b) = (m.dest_offset as usize, (m.dest_offset + m.length) as usize);
+                if m.source_offset != 0 || m.length as usize != orig[si].len() || after[di].len() < b || after[di][a..b] != orig[si][..] {
+                    s.oracle_fail("exec-move-not-original", &format!("move {k}: segment {di} [{a},{b}) is not the original content of segment {si}"), &r);
+                }
+            }
+            let dests: std::collections::BTreeSet<u16> = plan.moves.iter().map(|m| m.dest_segment).collect();
+            if plan.moves.iter().any(|m| dests.contains(&m.source_segment)) {
+                s.tally("exec-segment-both-source-and-target");
+            }
+            if plan.moves.iter().any(|m| m.length > 131072) {
+                s.tally("exec-move-gt-128KiB");
+            }
+            s.tally(if plan.moves.is_empty() { "exec-empty-plan" } else { "exec-with-moves" });
+            s.case(if plan.moves.is_empty() { None } else { Some(req) });
+            let fs = if after.is_empty() { "-".to_string() } else { after.iter().map(|f| format!("{}:{:016x}", f.len(), fnv64(f))).collect::<Vec<_>>().join(",") };
+            Some(format!("ok moves={} moved={} {}", plan.moves.len(), mover.bytes_moved(), fs))
+        }
         ["arch", pre, ws] => {
             // ArchiveManager: data.000 pre-sized to `pre` bytes, then one write_content per listed
             // record size (record = 30-byte local header + BLTE('N') frame = payload + 39), then
@@ -586,6 +678,56 @@ fn gen_small(s: &mut Session, rng: &mut Rng, samples: usize) {
         let f: Vec<u8> = (0..flen).map(|i| 0x10 + i as u8).collect();
         emit(s, format!("xc {} hex:{} {}", rng.pick(BUDGETS), hex(&f), spans_str(&v)));
         if rng.chance(1, 3) {
+            emit(s, format!("val {}", spans_str(&v)));
+        }
+    }
+}
+
+/// spans around the u64 boundary (offset + length >= 2^64, ends exactly at 2^64 - 1, offsets
+/// beyond i64::MAX where seek fails): all pairs over a 5 x 6 pool, then random triples that start
+/// with a small in-bounds span behind a gap (so that a set accepted by mistake moves bytes).
+fn gen_u64(s: &mut Session, rng: &mut Rng, samples: usize) {
+    let fh = "hex:a0a1a2a3a4a5a6a7a8a9aaab";
+    const H: u64 = 1 << 63;
+    let offs: &[u64] = &[0, 5, H, H + 5, u64::MAX];
+    let lens: &[u64] = &[0, 1, H, H + 10, u64::MAX - 5, u64::MAX];
+    let mut pool = vec![];
+    for &o in offs {
+        for &l in lens {
+            pool.push((o, l));
+        }
+    }
+    for a in &pool {
+        emit(s, format!("xc 0 {fh} {}", spans_str(&[*a])));
+        for b in &pool {
+            emit(s, format!("val {}", spans_str(&[*a, *b])));
+            emit(s, format!("xc 0 {fh} {}", spans_str(&[*a, *b])));
+        }
+    }
+    let offs2: &[u64] = &[0, 1, 7, 12, 13, H - 1, H, H + 1, H + 5, u64::MAX - 1, u64::MAX];
+    for _ in 0..samples {
+        let mut v = vec![];
+        if rng.chance(3, 4) {
+            v.push((rng.range(1, 4), rng.range(1, 3)));
+        }
+        let n = rng.range(1, 3);
+        for _ in 0..n {
+            let o = *rng.pick(offs2);
+            let l = match rng.below(8) {
+                0 => 0,
+                1 => rng.range(1, 4),
+                2 => u64::MAX - o,           // ends exactly at u64::MAX: no overflow
+                3 => (u64::MAX - o).wrapping_add(1), // ends exactly at 2^64 (0 when o = 0)
+                4 => H,
+                5 => H + rng.range(0, 12),
+                6 => u64::MAX,
+                _ => u64::MAX - rng.range(0, 12),
+            };
+            v.push((o, l));
+        }
+        shuffle(rng, &mut v);
+        emit(s, format!("xc {} {fh} {}", rng.pick(BUDGETS), spans_str(&v)));
+        if rng.chance(1, 2) {
             emit(s, format!("val {}", spans_str(&v)));
         }
     }
@@ -745,6 +887,38 @@ fn gen_plan_random(s: &mut Session, rng: &mut Rng, cases: usize) {
     }
 }
 
+/// plans executed on real segment files: small populations (exhaustive over 6 fill levels, 5
+/// segments, size 100 — contains the "source that later becomes a destination" shape), random
+/// ones, and a few with segments around the 128 KiB buffer.
+fn gen_exec(s: &mut Session, rng: &mut Rng, max_n: usize, random: usize, big: usize) {
+    let used: &[u64] = &[0, 10, 20, 60, 70, 80];
+    for n in 2..=max_n {
+        let total = used.len().pow(n as u32);
+        for code in 0..total {
+            let mut c = code;
+            let mut v = vec![];
+            for _ in 0..n {
+                v.push((true, used[c % used.len()]));
+                c /= used.len();
+            }
+            emit(s, format!("exec 0 {:016x} 100 {}", 1.0f64.to_bits(), segs_str(&v)));
+        }
+    }
+    for _ in 0..random {
+        let size = *rng.pick(&[64u64, 100, 255, 1000]);
+        let thr = *rng.pick(&[0.5f64, 0.75, 1.0, 1.5]);
+        let n = rng.range(2, 10) as usize;
+        let v: Vec<(bool, u64)> = (0..n).map(|_| (rng.chance(7, 8), if rng.chance(1, 8) { 0 } else { rng.range(1, size + size / 4) })).collect();
+        emit(s, format!("exec {} {:016x} {size} {}", rng.pick(BUDGETS), thr.to_bits(), segs_str(&v)));
+    }
+    for _ in 0..big {
+        let size = 1u64 << 20;
+        let n = rng.range(3, 6) as usize;
+        let v: Vec<(bool, u64)> = (0..n).map(|_| (true, *rng.pick(&[1u64, 4096, 131071, 131072, 131073, 262145, 300001, 500000]))).collect();
+        emit(s, format!("exec {} {:016x} {size} {}", rng.pick(BUDGETS), 1.0f64.to_bits(), segs_str(&v)));
+    }
+}
+
 fn gen_arch(s: &mut Session, rng: &mut Rng, cases: usize) {
     for _ in 0..cases {
         let pre = *rng.pick(&[0u64, 0, 100, 4096, (1 << 20) + 1, 2 << 20]);
@@ -767,7 +941,7 @@ fn main() {
     let args = Args::parse();
     let mut s = Session::new(&args.out);
     s.rule = "seeded + exhaustive request lines; non-trivial = xc that changed the file or was refused, val with >= 2 spans, \
-              cip with dst<=src, src!=dst, n>0 inside the file, mv with n>0 inside the source, plan with >= 1 move, arch with >= 1 write, mover sizing; \
+              cip with dst<=src, src!=dst, n>0 inside the file, mv with n>0 inside the source, plan / exec with >= 1 move, arch with >= 1 write, mover sizing; \
               distinct = canonical request text"
         .into();
     if let Some(p) = &args.replay {
@@ -787,11 +961,13 @@ fn main() {
         emit(&mut s, format!("mover {b}"));
     }
     gen_small(&mut s, &mut rng, if th { 60000 } else { 4000 });
+    gen_u64(&mut s, &mut rng, if th { 20000 } else { 1500 });
     gen_big(&mut s, &mut rng, if th { 1500 } else { 70 }, if th { 1 << 20 } else { 900_000 });
     gen_cip(&mut s, &mut rng, if th { 20000 } else { 1500 }, if th { 600 } else { 40 });
     gen_mv(&mut s, &mut rng, if th { 10000 } else { 1000 }, if th { 400 } else { 30 });
     gen_plan_exhaustive(&mut s, if th { 5 } else { 4 });
     gen_plan_random(&mut s, &mut rng, if th { 200_000 } else { 8000 });
+    gen_exec(&mut s, &mut rng, if th { 6 } else { 5 }, if th { 20000 } else { 1500 }, if th { 200 } else { 12 });
     gen_arch(&mut s, &mut rng, if th { 100 } else { 10 });
     s.finish();
 }
